@@ -3,11 +3,19 @@ import Cardutil.Model.Block1014
 import Cardutil.Model.Vbs
 import Cardutil.Model.Card
 import Cardutil.Model.PinBlock
+import Cardutil.WireIso
+import Cardutil.Model.Info
+import Cardutil.Model.Param
+import Cardutil.Model.Cli
+import Cardutil.Gen.Config
+import Cardutil.Gen.Codecs
+import Cardutil.Gen.PyTables
+import Cardutil.Gen.Limits
 /-
   Line-protocol driver: one request per line on stdin (tab separated), one response per line on
   stdout.  Executes the *model* definitions that the theorems in `Cardutil/Props` are about.
 -/
-open Cardutil Cardutil.Wire
+open Cardutil Cardutil.Wire Cardutil.WireIso
 
 def P1014 : Nat := 1012
 def maxLenDefault : Nat := 6000
@@ -79,6 +87,101 @@ def renderOut {α} (f : α → String) : Outcome α → String
   | .dataError => "err"
   | .escape k => s!"escape:{k.name}"
   | .diverge => "diverge"
+
+abbrev DState := List (String × Iso.Config)
+
+def lookupCfg (st : DState) (id : String) : Option Iso.Config :=
+  if id == "pkg" then some Gen.bitConfig else (st.find? (·.1 == id)).map (·.2)
+
+def mkEnv (codec : String) : Option Iso.Env :=
+  (Gen.codecs.find? (·.1 == codec)).map (fun c =>
+    { classes := Gen.intClasses, codec := c.2, de43 := fun _ _ => [], parseDate := parseIsoDate })
+
+def isoDecoder (env : Iso.Env) (cfg : Iso.Config) (b : Bytes) : Outcome Iso.Dict := Iso.decode env cfg false b
+
+def parseColRange (x : String) : Option (Nat × Nat) :=
+  match x.splitOn ":" with
+  | [a, b] => do let a ← a.toNat?; let b ← b.toNat?; some (a, b)
+  | _ => none
+
+def processIso (st : DState) (parts : List String) : Option String :=
+  match parts with
+  | ["iso.dumps", cid, codec, hx, dict] =>
+    match lookupCfg st cid, mkEnv codec, parseDict dict with
+    | some cfg, some env, some m => some (renderOut toHex (Iso.encode env cfg (hx == "1") m))
+    | _, _, _ => some "bad-op"
+  | ["iso.loads", cid, codec, hx, bytes] =>
+    match lookupCfg st cid, mkEnv codec, parseHex bytes with
+    | some cfg, some env, some b => some (renderOut renderDict (Iso.decode env cfg (hx == "1") b))
+    | _, _, _ => some "bad-op"
+  | ["ipm.read", cid, codec, blocked, maxLen, spec] =>
+    match lookupCfg st cid, mkEnv codec, maxLen.toNat?, parseSpec spec with
+    | some cfg, some env, some ml, some f =>
+      let r := if blocked == "1"
+        then Vbs.ipmReadAll (unblockSrc P1014) ml (isoDecoder env cfg) (f.length + 1) (Vbs.init ⟨f, []⟩)
+        else Vbs.ipmReadAll plainSrc ml (isoDecoder env cfg) (f.length + 1) (Vbs.init f)
+      some s!"ok {"|".intercalate (r.1.map renderDict)} {renderEnd r.2}"
+    | _, _, _, _ => some "bad-op"
+  | ["ipm.write", cid, codec, blocked, dicts] =>
+    match lookupCfg st cid, mkEnv codec,
+        (if dicts.isEmpty then some [] else (dicts.splitOn "|").mapM parseDict) with
+    | some cfg, some env, some ms =>
+      some (renderOut (fun (recs : List Bytes) => toHex (Writer.listToBytes P1014 (blocked == "1") recs))
+        (Outcome.mapO (Iso.encode env cfg false) ms))
+    | _, _, _ => some "bad-op"
+  | ["param", codec, expanded, table, colspec, blocked, spec] =>
+    -- colspec: "pkg" (layout of `table` from the translated configuration), "none", or start:end,start:end,…
+    let tableStr := (parseDotted table).map (fun t => String.ofList (t.map Char.ofNat))
+    let cols : Option (Option (List (Nat × Nat))) :=
+      if colspec == "none" then some none
+      else if colspec == "pkg" then
+        tableStr.map (fun ts => (Gen.paramTables.find? (·.1 == ts)).map (fun e => e.2.map (fun c => (c.2.1, c.2.2))))
+      else ((colspec.splitOn ",").mapM parseColRange).map some
+    match mkEnv codec, parseDotted table, cols, parseSpec spec with
+    | some env, some tbl, some cols, some f =>
+      let r := vbsBytesToList P1014 Gen.maxVbsRecordLength (blocked == "1") f
+      let last : Param.PEnd := match r.2 with
+        | .eof => .eof | .dataError _ _ => .dataError | .escape k => .escape k | _ => .escape .other
+      let out := Param.read env.codec cols tbl (expanded == "1") r.1 last
+      let row (x : Param.Row) : String := ",".intercalate ((x.tableId :: x.effTs :: x.code :: x.cols).map toDotted)
+      let e := match out.2 with | .eof => "eof" | .dataError => "err" | .escape k => s!"escape:{k.name}"
+      some s!"ok {"|".intercalate (out.1.map row)} {e}"
+    | _, _, _, _ => some "bad-op"
+  | ["cli.encode", tool, ca, cb, inB, outB, spec] =>
+    match mkEnv ca, mkEnv cb, parseSpec spec with
+    | some ea, some eb, some f =>
+      let cfgRead := if tool == "mideu-expanding" then Gen.bitConfig else Cli.noPds Gen.bitConfig
+      let r := Cli.convertIpm P1014 Gen.maxVbsRecordLength ea eb cfgRead Gen.bitConfig (inB == "1") (outB == "1") f
+      some (match r.2 with
+        | .eof => renderOut toHex r.1
+        | e => s!"abort {renderEnd e}")
+    | _, _, _ => some "bad-op"
+  | ["cli.param", ca, cb, inB, outB, spec] =>
+    match mkEnv ca, mkEnv cb, parseSpec spec with
+    | some ea, some eb, some f =>
+      let r := Cli.convertParam P1014 Gen.maxVbsRecordLength ea.codec eb.codec (inB == "1") (outB == "1") f
+      some (match r.2 with
+        | .eof => renderOut toHex r.1
+        | e => s!"abort {renderEnd e}")
+    | _, _, _ => some "bad-op"
+  | ["cli.csvrows", cw, cr, rows] =>
+    match mkEnv cw, mkEnv cr, (if rows.isEmpty then some [] else (rows.splitOn "|").mapM parseDict) with
+    | some ew, some er, some rs =>
+      some (renderOut (fun (out : List (List (Iso.Key × Text))) =>
+          "|".intercalate (out.map (fun r => renderDict (r.map (fun kv => (kv.1, Iso.Val.str kv.2))))))
+        (Outcome.mapO (Cli.csvRow ew er Gen.bitConfig) rs))
+    | _, _, _ => some "bad-op"
+  | ["info", spec] =>
+    match parseSpec spec with
+    | some f =>
+      match Info.ipmInfo (Gen.bitConfig.map (·.1)) Gen.maxVbsRecordLength Gen.latin1Numeric Gen.cp037Numeric f with
+      | .invalid .tooShort => some "invalid short"
+      | .invalid .firstLengthTooLong => some "invalid length"
+      | .invalid (.bitmapUsesUnconfigured b) => some s!"invalid bitmap:{b}"
+      | .valid blk enc =>
+        some s!"valid {if blk then 1 else 0} {match enc with | .latin1 => "latin1" | .cp037 => "cp037" | .unknown => "unknown"}"
+    | none => some "bad-op"
+  | _ => none
 
 def process (line : String) : String :=
   match line.splitOn "\t" with
@@ -196,14 +299,23 @@ def process (line : String) : String :=
     | _, _ => "bad-op"
   | _ => "bad-op"
 
-partial def loop (hin hout : IO.FS.Stream) : IO Unit := do
+partial def loop (hin hout : IO.FS.Stream) (st : DState) : IO Unit := do
   let line ← hin.getLine
   if line.isEmpty then return ()
   let l := ((line.dropEndWhile (fun c => c = '\n' || c = '\r')).toString)
-  hout.putStrLn (process l)
-  loop hin hout
+  let parts := l.splitOn "\t"
+  match parts with
+  | ["cfg.def", id, cfg] =>
+    match parseConfig cfg with
+    | some c => hout.putStrLn "ok"; loop hin hout ((id, c) :: st.filter (·.1 != id))
+    | none => hout.putStrLn "bad-op"; loop hin hout st
+  | _ =>
+    match processIso st parts with
+    | some r => hout.putStrLn r
+    | none => hout.putStrLn (process l)
+    loop hin hout st
 
 def main : IO Unit := do
   let hin ← IO.getStdin
   let hout ← IO.getStdout
-  loop hin hout
+  loop hin hout []
